@@ -275,7 +275,12 @@ func seqRun(w *World, coll bool) {
 			return
 		}
 		// contents
-		if msg := seqCompareContents(r, m, ids, genIDs); msg != "" {
+		// (not always, and not always through List: an observation must not be what keeps a read path's own state fresh)
+		look := t.Choose(4)
+		if i == n-1 {
+			look = 0
+		}
+		if msg := seqCompareContents(r, m, ids, genIDs, look); msg != "" {
 			w.Violate("contents-mismatch", fmt.Sprintf("after call %d: %s -> %s\n  %s\n  contents before: %s", i, o, got, msg, before.contentsString()),
 				map[string]any{"resource": resName(coll), "op": o.Kind, "code": got.Code.String()})
 			return
@@ -330,7 +335,10 @@ func newRealResRNG(cfg resCfg, clock *simClock, rd interface{ Read([]byte) (int,
 }
 
 // seqCompareContents compares full contents; returns "" when equal.
-func seqCompareContents(r *realRes, m *model, ids, genIDs []string) string {
+func seqCompareContents(r *realRes, m *model, ids, genIDs []string, look int) string {
+	if look == 3 {
+		return ""
+	}
 	if !m.cfg.Coll {
 		got := r.apply(wop{Kind: opGet})
 		want := m.apply(wop{Kind: opGet}, "")
@@ -339,10 +347,12 @@ func seqCompareContents(r *realRes, m *model, ids, genIDs []string) string {
 		}
 		return ""
 	}
-	got := r.apply(wop{Kind: opList})
-	want := m.apply(wop{Kind: opList}, "")
-	if !sameRes(got, want) {
-		return fmt.Sprintf("List returns %v, model holds %v (sorted by id: %s)", got.List, want.List, strings.Join(m.sortedIDs(), ","))
+	if look != 2 {
+		got := r.apply(wop{Kind: opList})
+		want := m.apply(wop{Kind: opList}, "")
+		if !sameRes(got, want) {
+			return fmt.Sprintf("List returns %v, model holds %v (sorted by id: %s)", got.List, want.List, strings.Join(m.sortedIDs(), ","))
+		}
 	}
 	for _, id := range append(append([]string{}, ids...), genIDs...) {
 		g := r.apply(wop{Kind: opGet, ID: id})
